@@ -60,6 +60,16 @@ def _decode_all(payload):
         b0 = dict(R.public_attrs(RTCMReader.parse(frame, validate=0, labelmsm=lm)))
         if b0 != a:
             b = b0
+        # the frame handed over as another bytes-like type, and read from a stream that returns one
+        for conv in (bytearray, memoryview):
+            bt = dict(R.public_attrs(RTCMReader.parse(conv(frame), labelmsm=lm)))
+            if bt != a:
+                b = bt
+        from mc.doubles import TypedStream  # pylint: disable=import-outside-toplevel
+
+        _raw, parsed = RTCMReader(TypedStream(frame, None, bytearray, faults=False), labelmsm=lm).read()
+        if dict(R.public_attrs(parsed)) != a:
+            c = dict(R.public_attrs(parsed))
         res[repr(lm)] = (a, b, c)
     # two readers alive at the same time with different options, used after both were created
     r1 = RTCMReader(io.BytesIO(frame), labelmsm=1)
@@ -73,6 +83,7 @@ def _decode_all(payload):
     return res
 
 
+@core.guard
 def judge(case):
     out = core.Outcome()
     payload = case["payload"]
